@@ -54,6 +54,8 @@
 package pkigen
 
 import (
+	"bytes"
+	"crypto"
 	"crypto/ecdsa"
 	"crypto/elliptic"
 	"crypto/rand"
@@ -63,11 +65,13 @@ import (
 	"encoding/asn1"
 	"fmt"
 	"math/big"
+	"sort"
 	"sync"
 	"sync/atomic"
 	"time"
 
 	"github.com/scionproto/scion/pkg/addr"
+	"github.com/scionproto/scion/pkg/scrypto/cms/oid"
 	"github.com/scionproto/scion/pkg/scrypto/cms/protocol"
 	"github.com/scionproto/scion/pkg/scrypto/cppki"
 )
@@ -450,24 +454,57 @@ func EncodePayload(trc cppki.TRC) ([]byte, error) {
 
 // SignerInfo creates one CMS signer info over rawPayload whose signer identifier (issuer and serial
 // number) names the certificate sid and whose signature is made with key. With key == the key of
-// sid this is a correct signature.
+// sid this is a correct signature. Built directly after RFC 5652 section 5.4 (same attributes and
+// algorithm choice as protocol.SignedData.AddSignerInfo: signing time, message digest, content
+// type id-data; SHA-256/384/512 by curve).
 func SignerInfo(rawPayload []byte, sid *x509.Certificate, key *ecdsa.PrivateKey) (protocol.SignerInfo, error) {
-	eci, err := protocol.NewDataEncapsulatedContentInfo(rawPayload)
+	h, digestOID, sigOID := crypto.SHA256, oid.DigestAlgorithmSHA256, oid.SignatureAlgorithmECDSAWithSHA256
+	switch key.Curve {
+	case elliptic.P384():
+		h, digestOID, sigOID = crypto.SHA384, oid.DigestAlgorithmSHA384, oid.SignatureAlgorithmECDSAWithSHA384
+	case elliptic.P521():
+		h, digestOID, sigOID = crypto.SHA512, oid.DigestAlgorithmSHA512, oid.SignatureAlgorithmECDSAWithSHA512
+	}
+	id, err := protocol.NewIssuerAndSerialNumber(sid)
 	if err != nil {
 		return protocol.SignerInfo{}, err
 	}
-	sd, err := protocol.NewSignedData(eci)
+	si := protocol.SignerInfo{
+		Version:            1,
+		SID:                id,
+		DigestAlgorithm:    pkix.AlgorithmIdentifier{Algorithm: digestOID},
+		SignatureAlgorithm: pkix.AlgorithmIdentifier{Algorithm: sigOID},
+	}
+	md := h.New()
+	md.Write(rawPayload)
+	st, err := protocol.NewAttribute(oid.AttributeSigningTime, time.Now().UTC())
 	if err != nil {
 		return protocol.SignerInfo{}, err
 	}
-	// AddSignerInfo picks the certificate by public key and takes issuer/serial from it: hand it a
-	// copy of sid that carries the signing key's public key.
-	named := *sid
-	named.PublicKey = &key.PublicKey
-	if err := sd.AddSignerInfo([]*x509.Certificate{&named}, key); err != nil {
+	mda, err := protocol.NewAttribute(oid.AttributeMessageDigest, md.Sum(nil))
+	if err != nil {
 		return protocol.SignerInfo{}, err
 	}
-	return sd.SignerInfos[0], nil
+	ct, err := protocol.NewAttribute(oid.AttributeContentType, oid.ContentTypeData)
+	if err != nil {
+		return protocol.SignerInfo{}, err
+	}
+	attrs := []protocol.Attribute{st, mda, ct}
+	// DER SET OF ordering (X.690 11.6): by encoded value
+	sort.Slice(attrs, func(i, j int) bool {
+		return bytes.Compare(attrs[i].RawValue.FullBytes, attrs[j].RawValue.FullBytes) < 0
+	})
+	si.SignedAttrs = attrs
+	sm, err := si.SignedAttrs.MarshaledForSigning()
+	if err != nil {
+		return protocol.SignerInfo{}, err
+	}
+	smd := h.New()
+	smd.Write(sm)
+	if si.Signature, err = key.Sign(rand.Reader, smd.Sum(nil), h); err != nil {
+		return protocol.SignerInfo{}, err
+	}
+	return si, nil
 }
 
 // Assemble builds the ContentInfo DER (SignedData v1, id-data, no certificates) from a payload and
